@@ -162,6 +162,7 @@ package kv
 //@ end
 //@ func github.com/lindb/lindb/kv/table.StreamWriter.Commit
 //@   norefine
+//@   requires[a_key_is_committed_to_an_output_file_that_is_not_finished] self.of != nil && !cast(self.of, "table.Builder").finished
 //@   modifies nothing
 //@ end
 //@ func Family.newTableBuilder
@@ -213,7 +214,7 @@ package kv
 //@ end
 //@ func compactFlusherStreamWriter.Commit
 //@   prop C03
-//@   requires cswOK(cfsw) && (cfsw.prepareErr == nil ==> (cfsw.compactFlusher.compactJob.state.builder != nil && cfsw.builder == cfsw.compactFlusher.compactJob.state.builder))
+//@   requires cswOK(cfsw) && (cfsw.prepareErr == nil ==> (cfsw.compactFlusher.compactJob.state.builder != nil && cfsw.builder == cfsw.compactFlusher.compactJob.state.builder && !cfsw.builder.finished))
 //@   modifies cfsw.compactFlusher.compactJob.state.builder, cfsw.compactFlusher.compactJob.state.outputs, any(table.Builder).finished
 //@   ensures[a_failed_prepare_is_reported] old(cfsw.prepareErr) != nil ==> result != nil
 //@   ensures cswOK(cfsw)
